@@ -51,7 +51,7 @@ Param Hist::genParam(const std::string& name, std::string* descr) {
         if (explicitDims) p.set(v, dims); else if (prod == 1 && rng.chance(50)) p.set(v[0]); else p.set(v); }
     else if (type == 1) { std::vector<float> v; for (size_t i = 0; i < prod; ++i) v.push_back(bitsf(genFloatBits(rng, specialFloats)));
         if (explicitDims) p.set(v, dims); else if (prod == 1 && rng.chance(50)) p.set(v[0]); else p.set(v); }
-    else { std::vector<std::string> v; for (size_t i = 0; i < prod; ++i) { int l = rng.chance(15) ? 0 : rng.range(1, 12); std::string s; for (int k = 0; k < l; ++k) s += (char)("ABCdef ghi_12"[rng.below(13)]); while (!s.empty() && s[s.size() - 1] == ' ') s[s.size() - 1] = 'z'; v.push_back(s); }
+    else { std::vector<std::string> v; bool wide = rng.chance(12); for (size_t i = 0; i < prod; ++i) { int l = rng.chance(15) ? 0 : rng.range(1, 12); if (wide && (i == 0 || rng.chance(10))) l = rng.range(120, 255); /* very uneven widths: long padding runs */ std::string s; for (int k = 0; k < l; ++k) s += (char)("ABCdef ghi_12"[rng.below(13)]); while (!s.empty() && s[s.size() - 1] == ' ') s[s.size() - 1] = 'z'; v.push_back(s); }
         if (explicitDims) p.set(v, dims); else if (prod == 1 && rng.chance(50)) p.set(v[0]); else p.set(v); }
     } catch (const std::exception& e) { Outcome oc = classify(e); log.viol("C09", "set/consistent_refused/" + oc.cls, "while building a parameter: " + d.str() + ": " + oc.what); p.set(1); }
     if (rng.chance(25)) p.lock();
@@ -151,6 +151,12 @@ bool Hist::opParamSet() {
     if (!expectOk && oc.threw && !satisfies(oc.cls, "range_error")) log.viol("C09", "set/wrong_class/" + oc.cls, a.str());
     if (oc.threw && after != before) log.viol("C09", "set/changed_after_refusal", a.str());
     if (oc.threw && after != before) log.viol("C10", "changed_after_refusal/param_set_dims/" + oc.cls + "/parameter", a.str());
+    if (oc.threw && rng.chance(50)) {
+        // the refused set() must have left the parameter usable: add it to the object (it is then saved/printed/destroyed by later operations)
+        p.name("SETPROBE" + std::to_string(rng.range(0, 3)));
+        log.pre("parameter"); Outcome ao; VF_TRY(ao, obj->parameter("PROBES", p)); log.ev("add_param_after_refused_set", "name=" + p.name(), ao); bump("op:add_param_after_refused_set");
+        afterMutator("add_param_after_refused_set", ao);
+    }
     if (!oc.threw) {
         std::vector<size_t> want = nd ? dims : std::vector<size_t>(1, n);
         if (type == 2) want.insert(want.begin(), longest);
